@@ -55,7 +55,7 @@ def r_ledger(root):
     fn = find(t, "get_model_parser.TextXModelParser.get_model_from_str"); g = CFG(fn); inst += 1
     acq = [n for n in g.nodes if n.kind == "stmt" and any(is_replace(c) for c in calls(n.ast))]
     if not acq: raise AnalysisError("instrumentation acquire site not found")
-    rel_node = lambda n: n.kind == "stmt" and any(is_restore(c) for c in calls(n.ast))
+    rel_node = lambda n: n.kind == "stmt" and node_effect(n, defs, is_restore)
     p = escapes(g, [m for a in acq for m in normal_succ(a)], rel_node)
     if p: out.append(Finding("C14", "C14.a", M, "get_model_from_str", ast.unparse(p[-2].ast)[:80] if p[-2].ast is not None else "", "exception leaves the load with user classes instrumented (no restore on this exit)"))
     # release without acquire unless idempotent (guard flag)
@@ -81,7 +81,9 @@ def r_ledger(root):
     for h in handlers:
         inst += 1
         cs = [c for c in closure_calls(h.body, defs) if is_restore(c)]
-        quant = any(any(isinstance(a, ast.For) for a in ancestors(c)) for c in cs)
+        # quantified over the models: some call on the chain from the handler to the restore sits in a loop
+        chain = [c for c in closure_calls(h.body, defs) if any(is_restore(x) for x in closure_calls([c], defs))]
+        quant = any(any(isinstance(a, ast.For) for a in ancestors(c)) for c in chain)
         if not cs or not quant:
             out.append(Finding("C14", "C14.a", M, "parse_tree_to_objgraph", "except: " + " ".join(ast.unparse(h.body[0]).split())[:70], "failure handler does not restore the user classes for every model under construction (imported models keep them instrumented)", witness="two-file load, error in main file after import"))
     # O2 storage
